@@ -157,6 +157,19 @@ Theorem C06_step_refines : forall (key val : Type) (keq : key -> key -> bool) (h
 Proof. exact @step_refines. Qed.
 Print Assumptions C06_step_refines.
 
+(* refused operations are refused in every state and change nothing: add(obj, k, obj) for a
+   present or absent key, every flag word, every fill level (also when the next insertion
+   would grow the table: nothing is allocated); deleting an absent key; lookups.  The
+   table returned is the very same table. *)
+Theorem C06_refused_unchanged : forall (key val : Type) (keq : key -> key -> bool) (hash : key -> Z),
+  (forall a b, keq a b = true <-> a = b) ->
+  forall (al : alloc) (t : table key val) (o : op key val),
+  Inv hash t -> refused keq (abs t) o ->
+  exists b, obj_step keq hash al t o = Some (t, b) /\
+            match o with OAddSelf _ _ _ => b = false | _ => True end.
+Proof. exact @refused_unchanged. Qed.
+Print Assumptions C06_refused_unchanged.
+
 (* all operation sequences *)
 Theorem C06_history_refines : forall (key val : Type) (keq : key -> key -> bool) (hash : key -> Z),
   (forall a b, keq a b = true <-> a = b) ->
